@@ -34,6 +34,16 @@ RESP_HEADERS = ["Cache-Control: max-age=60", "Cache-Control: private=\"x\"", "ET
                 "Proxy-Authenticate: Basic realm=\"p\"", "Surrogate-Control: no-store", "Content-Encoding: gzip"]
 
 
+def _chain(t):
+    start, steps = t
+    out, last = [], start
+    for step, ln in steps:
+        a = max(0, last + step)
+        out.append([a, a + ln])
+        last = a + ln
+    return out
+
+
 def strategy(tp):
     req = st.fixed_dictionaries({
         "method": st.sampled_from(["GET", "GET", "POST", "PUT", "HEAD", "OPTIONS", "TRACE", "DELETE", "PURGE", "CONNECT", "FROB"]),
@@ -44,7 +54,10 @@ def strategy(tp):
         "body_len": st.sampled_from([0, 1, 10, 5000]),
         "mut": st.lists(mutation, min_size=0, max_size=4),
         # a generated multi-range request over small positions: touching, overlapping, nested, reversed and duplicate specs
-        "range": st.one_of(st.none(), st.none(), st.lists(st.tuples(st.integers(0, 24), st.integers(0, 12)).map(lambda t: [t[0], t[0] + t[1]]), min_size=1, max_size=5)),
+        "range": st.one_of(st.none(), st.none(), st.lists(st.tuples(st.integers(0, 24), st.integers(0, 12)).map(lambda t: [t[0], t[0] + t[1]]), min_size=1, max_size=5),
+                           # a chain: every spec starts at the previous spec's last byte plus a small step (-2..2: nested, sharing
+                           # exactly one byte, adjacent, one byte apart), boundary-dense where range merging and ordering decide
+                           st.tuples(st.integers(0, 30), st.lists(st.tuples(st.integers(-2, 2), st.integers(0, 12)), min_size=2, max_size=5)).map(_chain)),
         # structure-aware length inflation of one component to a boundary-dense size
         "stretch": st.one_of(st.none(), st.none(), st.tuples(st.sampled_from(["host", "path", "query", "header-value", "header-name", "method", "userinfo"]),
                                                              st.sampled_from([255, 256, 1023, 1024, 1025, 4095, 4096, 8191, 8192, 8193, 12000, 16384, 20000])).map(list)),
